@@ -11,6 +11,17 @@ CHECKS = {
    note='Trusts the list model in sim/contsim.py and CPython list semantics; Predicates cannot be subclassed (read-only metaclass) so only its own conflict veto is exercised.'),
 }
 
+CHECKS.update({
+ 'C03': dict(engine='proofsim', level='exploration', ref='DESIGN.md §6 C03',
+   technique='deterministic simulation: seeded search over arguments x logics x option combinations x tie-break schedules x cache sizes, stepped under a lost-tick progress monitor; oracle = exhaustive truth-table enumeration in an independent reference semantics; root-cause diagnosis of wrong verdicts',
+   text='Seeded search over propositional arguments in all 57 logics under controlled tie-break order, options and cache size, no limits. Each verdict is compared with complete truth-table enumeration in R1, so soundness and completeness are decided exactly per explored argument; termination is monitored by the sound lost-tick criterion (step-budget overruns are only counted). Arguments, schedules and options are sampled.',
+   note='Trusts R1 (sim/ref/refsem.py) as transcription of the documented tables; known FDE-family evaluator discrepancy does not matter here because R1, not the library evaluator, is the oracle.'),
+ 'C16': dict(engine='proofsim', level='exploration', ref='DESIGN.md §6 C16',
+   technique='deterministic simulation: invariant monitor over every prefix of schedule-dependent step histories, shadow tableau rebuilt from public events and step() return values, step-limit faults',
+   text='Every step of every explored run (all logics, fragments, options, seeded tie-break orders, step-limit cuts) is checked against a shadow tableau built only from the eight public events and step() return values: trunk content, grow-only branches, closed never extended, open view, fork prefix, one history entry per step, stat() step numbers, events exactly once; after finish the tree and stats are recomputed from the branches.',
+   note='Trusts the monitor sim/checks/c16.py; stat() entries are read from the branch a node was really added on (copies only carry default-valued entries).'),
+})
+
 NOT_APPLICABLE = {
  'C04': 'expanding one node on a fresh one-node branch is a pure finite function of (logic, node shape, component values): no schedule, clock, fault or history enters; exhaustive case enumeration (a different technique family) is the right instrument (DESIGN.md §7)',
  'C07': 'truth tables and designated sets are constants of the code compared with literature tables; nothing to schedule, inject or replay (DESIGN.md §7)',
